@@ -400,3 +400,47 @@ func BuildFixed(id string, specs []*specgen.Spec, lexable, race bool) (*World, e
 	}
 	return w, nil
 }
+
+// StatsHash is a digest of everything the harness counted: two executions of
+// the same seeded workload must agree on it exactly.
+func (r *Result) StatsHash() string {
+	keys := make([]string, 0, len(r.Stats))
+	for k := range r.Stats {
+		keys = append(keys, k)
+	}
+	sort.Strings(keys)
+	var sb strings.Builder
+	fmt.Fprintf(&sb, "runs=%d;distinct=%d;", r.Runs, r.Distinct)
+	for _, k := range keys {
+		fmt.Fprintf(&sb, "%s=%d;", k, r.Stats[k])
+	}
+	for _, v := range r.Violations {
+		sb.WriteString(core.Signature(v.Sig).String() + ";")
+	}
+	return fmt.Sprintf("%016x", core.Derive(0, sb.String(), 0))
+}
+
+// DeterminismProbe runs the same seeded workload twice more, with another
+// sharding and GOMAXPROCS, and compares everything counted. A difference is
+// trouble of the machinery (a forgotten source of nondeterminism), not a
+// violation.
+func (w *World) DeterminismProbe(bin, mode string, seed uint64, runs int, extra []string) (string, error) {
+	a, err := w.RunShards(bin, mode, seed, runs, 14, extra, []string{"GOMAXPROCS=4"}, 20*time.Minute)
+	if err != nil {
+		return "", err
+	}
+	b, err := w.RunShards(bin, mode, seed, runs, 5, extra, []string{"GOMAXPROCS=1"}, 20*time.Minute)
+	if err != nil {
+		return "", err
+	}
+	if a.StatsHash() != b.StatsHash() {
+		diff := ""
+		for k, v := range a.Stats {
+			if b.Stats[k] != v {
+				diff += fmt.Sprintf(" %s:%d/%d", k, v, b.Stats[k])
+			}
+		}
+		return "", stagea.Infra("harness is not deterministic: two executions of seed %d differ (%s vs %s;%s)", seed, a.StatsHash(), b.StatsHash(), diff)
+	}
+	return a.StatsHash(), nil
+}
